@@ -1604,6 +1604,12 @@ class Inliner:
                 return plain(e.value) and plain(e.slice)
             return False
 
+        if isinstance(f.value, ast.Name):
+            # `await guard.check()` here and `wait(check=guard.check)` there: the bound method is a unit that somebody else
+            # calls too, so it is read as one (the closure the object stands for), not dissolved at this call site
+            called = {id(c.func) for c in ast.walk(caller.node) if isinstance(c, ast.Call)}
+            if any(isinstance(a, ast.Attribute) and isinstance(a.value, ast.Name) and a.value.id == f.value.id and a.attr == f.attr and isinstance(a.ctx, ast.Load) and id(a) not in called for a in ast.walk(caller.node)):
+                return "the bound method is also handed on as a value"
         if plain(f.value) and self.P.resolve_call(caller, call) is None:
             return None
         return "method called on another object"
